@@ -87,7 +87,7 @@ class FakeGeneration:
         return json.dumps(symbolic.term('loaded', offset + 1)).encode()
 
 
-def build_segment(nodes, sf, rnd=None, flaky=None):
+def build_segment(nodes, sf, rnd=None, flaky=None, stateful=None):
     """Build real workers for the abstract `nodes` ([{szin, szout, grp, trained, ins}], 1-based ids, node 1 = source).
     Wiring calls are issued in a seeded random order (the compiler's visit order follows subscription order)."""
     from forml import flow
@@ -99,7 +99,7 @@ def build_segment(nodes, sf, rnd=None, flaky=None):
         if g in first:
             real.append(first[g].fork())
             continue
-        cls = symbolic.Source if n['szin'] == 0 else symbolic.Stateful if sf[g - 1] else symbolic.Stateless
+        cls = symbolic.Source if n['szin'] == 0 else (stateful or symbolic.Stateful) if sf[g - 1] else symbolic.Stateless
         if flaky and flaky[0] == g:      # (group, marker file): that (stateless) actor fails on its first application
             builder = symbolic.FlakyOnce.builder(str(g), n['szout'], marker=flaky[1])
         else:
@@ -215,6 +215,8 @@ class FileGeneration:
         fd = os.open(f'{self.root}/loads', os.O_WRONLY | os.O_APPEND | os.O_CREAT, 0o644)
         os.write(fd, f'{offset + 1}\n'.encode())
         os.close(fd)
+        if getattr(self, 'empty', False):      # a generation without states (what an untrained release answers)
+            return b''
         return json.dumps(symbolic.term('loaded', offset + 1)).encode()
 
     # ---- read back (driver side)
